@@ -247,7 +247,14 @@ def g_string(s: str) -> bool:
     want_none = p.suffix or '.'
     if Path is WindowsPath:
         want_none = want_none.replace('/', chr(92))
-    return R(full == want and r == want_r and none == want_none)
+    # a root that itself resolves through further roots (bindir -> exec_prefix -> prefix -> /...)
+    others = [x for x in (InstallRoot.prefix, InstallRoot.exec_prefix, InstallRoot.bindir) if x != ROOT]
+    r2, r3 = others[0], others[1]
+    deep = p.string({ROOT: Path('lvl1', r2), r2: Path('', r3), r3: base})
+    want_deep = '/base/dir/lvl1' + ('/' + p.suffix if p.suffix else '')
+    if Path is WindowsPath:
+        want_deep = want_deep.replace('/', chr(92))
+    return R(full == want and r == want_r and none == want_none and deep == want_deep)
 
 
 CWD = param('cwd', '/w/cur')
